@@ -31,6 +31,7 @@ func init() {
 
 		"(*sync/atomic.Value).Load": func(fr *frame, a []value) value {
 			fr.schedPoint("atomic")
+			fr.raceAcquire(a[0].(*value), "atomic")
 			return (*a[0].(*value)).(structure)[0]
 		},
 		"(*sync/atomic.Value).Store": func(fr *frame, a []value) value {
@@ -38,18 +39,24 @@ func init() {
 			if a[1].(iface).t == nil {
 				panic(targetPanic{v: iface{types.Typ[types.String], "sync/atomic: store of nil value into Value"}, site: fr.site()})
 			}
+			fr.raceAcquire(a[0].(*value), "atomic")
+			fr.raceRelease(a[0].(*value), "atomic")
 			(*a[0].(*value)).(structure)[0] = a[1]
 			fr.p.sched.visOps++
 			return nil
 		},
 		"(*sync/atomic.Value).Swap": func(fr *frame, a []value) value {
 			fr.schedPoint("atomic")
+			fr.raceAcquire(a[0].(*value), "atomic")
+			fr.raceRelease(a[0].(*value), "atomic")
 			old := (*a[0].(*value)).(structure)[0]
 			(*a[0].(*value)).(structure)[0] = a[1]
 			return old
 		},
 		"(*sync/atomic.Value).CompareAndSwap": func(fr *frame, a []value) value {
 			fr.schedPoint("atomic")
+			fr.raceAcquire(a[0].(*value), "atomic")
+			fr.raceRelease(a[0].(*value), "atomic")
 			cur := (*a[0].(*value)).(structure)[0]
 			if fr.p.truth(fr.p.eqv(cur, a[1])) {
 				(*a[0].(*value)).(structure)[0] = a[2]
